@@ -2,8 +2,10 @@ package main
 
 import (
 	"context"
+
 	"encoding/json"
 	"fmt"
+	"golang.org/x/tools/go/ssa"
 	"os"
 	"os/exec"
 	"path/filepath"
@@ -15,13 +17,13 @@ import (
 )
 
 type PropConfig struct {
-	Level       string   `json:"level"`        // evidence level: proof | other
-	Note        string   `json:"note"`         // explanation used when level is other
-	Extra       []string `json:"extra_funcs"`  // extra function keys (beyond props tags)
+	Level       string   `json:"level"`       // evidence level: proof | other
+	Note        string   `json:"note"`        // explanation used when level is other
+	Extra       []string `json:"extra_funcs"` // extra function keys (beyond props tags)
 	MinObls     int      `json:"min_obligations"`
-	Bounded     []string `json:"bounded"`      // names of bounded stand-ins (run by the driver script)
-	Structural  []string `json:"structural"`   // structural checks
-	Assumptions []string `json:"assumptions"`  // standing assumptions for the evidence
+	Bounded     []string `json:"bounded"`     // names of bounded stand-ins (run by the driver script)
+	Structural  []string `json:"structural"`  // structural checks
+	Assumptions []string `json:"assumptions"` // standing assumptions for the evidence
 	NotDecided  []string `json:"not_decided"`
 	Witness     string   `json:"witness"` // witness finder run only after an obligation failed, e.g. "parseprobe C08 4"
 }
@@ -144,6 +146,59 @@ func cmdCheck(args []string) {
 			keys = append(keys, k)
 		}
 	}
+	// close the set under contracted callees in /repo (their postconditions are assumed by the callers)
+	inSet := map[string]bool{}
+	for _, k := range keys {
+		inSet[k] = true
+	}
+	work := append([]string{}, keys...)
+	for len(work) > 0 {
+		k := work[len(work)-1]
+		work = work[:len(work)-1]
+		fn := w.prog.funcs[k]
+		if fn == nil {
+			continue
+		}
+		var visit func(f *ssa.Function, depth int)
+		visit = func(f *ssa.Function, depth int) {
+			for _, b := range f.Blocks {
+				for _, ins := range b.Instrs {
+					var cc *ssa.CallCommon
+					switch x := ins.(type) {
+					case *ssa.Call:
+						cc = &x.Call
+					case *ssa.Defer:
+						cc = &x.Call
+					case *ssa.Go:
+						cc = &x.Call
+					}
+					if cc == nil {
+						continue
+					}
+					callee := cc.StaticCallee()
+					if callee == nil {
+						if mc, ok := cc.Value.(*ssa.MakeClosure); ok {
+							callee = mc.Fn.(*ssa.Function)
+						}
+					}
+					if callee == nil {
+						continue
+					}
+					ck := funcKey(callee)
+					if s, ok := w.funcSpecs[ck]; ok {
+						if !s.Assumed && s.Trusted == "" && !inSet[ck] {
+							inSet[ck] = true
+							keys = append(keys, ck)
+							work = append(work, ck)
+						}
+					} else if depth < maxInlineDepth && callee.Blocks != nil && callee.Pkg != nil && strings.HasPrefix(callee.Pkg.Pkg.Path(), "github.com/FollowTheProcess/spok") {
+						visit(callee, depth+1) // inlined helper: look through it
+					}
+				}
+			}
+		}
+		visit(fn, 0)
+	}
 	sort.Strings(keys)
 	var obls []*Obligation
 	assumed := map[string]bool{}
@@ -158,10 +213,9 @@ func cmdCheck(args []string) {
 	for _, k := range keys {
 		g := w.verifyFunc(k)
 		for _, o := range g.obls {
-			// clause-level property tags restrict; untagged obligations serve every property of the function
-			if len(o.Props) > 0 && !hasProp(o.Props, id) {
-				continue
-			}
+			// clause-level tags only name clauses: every obligation of a function that serves the
+			// property is checked, because assertions, invariants and callee postconditions are
+			// assumed downstream regardless of their tag
 			obls = append(obls, o)
 		}
 		for a := range g.usedAssumed {
